@@ -7,14 +7,24 @@
   proximal maps satisfy the certificate contract `IsProx` (≡ argmin definition for convex functionals,
   `C03_prox_contract_iff_argmin`); `…SpecStep` is the documented iteration, equal to `step()` by C11.
 
-  NOT proved here (exercised numerically by the check only): convergence of the ADMM family and of PDHG
-  to the minimiser from arbitrary starts; Lyapunov descent under relaxation `alpha ≠ 1` (Boyd's §3.3
-  argument, which is what is formalised, is for `alpha = 1`).
+  Round 2 (second half of the file): ADMM with relaxation `alpha ∈ (0,2)` — Lyapunov descent of the
+  Douglas–Rachford quantity `W`, residuals → 0 and convergence of `minimizer()` to the minimiser for strongly
+  convex `f`, from every start; PDHG Fejér monotonicity and residuals → 0 for `τσ‖C‖² < 1`; Lyapunov functions of
+  ProximalADMM (`μ ≥ ‖A‖²`, `ν ≥ ‖B‖²`) and LinearizedADMM (`μ‖C‖² ≤ ν`) with residuals → 0; FISTA `O(1/k²)`.
+
+  NOT proved here (exercised numerically by the check only): convergence of the *iterates* of ADMM for merely convex
+  `f`, of LinearizedADMM / ProximalADMM / PDHG / AcceleratedPGM, and anything about NonLinearPADMM / non-linear PDHG
+  beyond fixed points (non-convex); PDHG with `alpha ≠ 1`.
 -/
 import Scico.Proofs.StepsFixed
 import Scico.Proofs.StepsPGM
 import Scico.Proofs.StepsLyap
 import Scico.Proofs.StepsLyapN
+import Scico.Proofs.StepsRelax
+import Scico.Proofs.StepsPDHG
+import Scico.Proofs.StepsProxADMM
+import Scico.Proofs.StepsFISTA
+import Scico.Proofs.StepsExamples
 
 set_option linter.unusedSectionVars false
 
@@ -278,5 +288,257 @@ example (y0 z1 z2 : X) :
 example : (3 : ℝ) / 2 ≤ fistaTImpl 1 := by
   have := fistaT_ge 1 (by norm_num)
   linarith
+
+/-! ## Round 2: relaxation, residuals, convergence of ADMM; PDHG; proximal / linearized ADMM; FISTA rate -/
+
+/-- ADMM with relaxation `alpha ≥ 0` (Eckstein–Bertsekas / Boyd §3.4.3), `N` constraints, `∂f` strongly monotone with
+    modulus `m ≥ 0` (`m = 0`: plain convexity, `StrongSub F 0` holds for every `F`).  One documented iteration from
+    a dual-feasible state (`ρ_i u_i ∈ ∂g_i(z_i)`, true after every step — second conjunct, which needs no
+    assumption on the previous state): for `W = Σ ρ_i ‖(z_i + u_i) − (C_i x* + u_i*)‖²`,
+    `W⁺ + α(2−α) Σ ρ_i ‖C_i x⁺ − z_i‖² + 2 α m ‖x⁺ − x*‖² ≤ W`. -/
+theorem C03_admm_relax_lyapunov (alpha : ℝ) (ha : 0 ≤ alpha) (rows : List (Row X Z)) (f : Option (X → ℝ))
+    (solveX : List Z → List Z → X → X) (F : Fn X) (m : ℝ) (hsm : StrongSub F m)
+    (hsolve : ∀ z u x0, F.Subgrad (solveX z u x0) (xGrad (rows.map (·.c)) z u (solveX z u x0)))
+    (xs : X) (hok : ∀ r ∈ rows, RowOK xs r)
+    (hkx : F.Subgrad xs (xGrad (rows.map (·.c)) (rows.map (fun r => r.c.C xs)) (rows.map (·.us)) xs))
+    (x : X) (zOld : List Z) :
+    let xn := solveX (rows.map (·.z)) (rows.map (·.u)) x
+    admmSpecStep (admmOfCons f alpha solveX (rows.map (·.c)))
+        { x := x, z := rows.map (·.z), zOld := zOld, u := rows.map (·.u) }
+      = { x := xn, z := rows.map (fun r => r.znA alpha xn), zOld := rows.map (·.z), u := rows.map (fun r => r.unA alpha xn) } ∧
+    (∀ r ∈ rows, r.c.G.Subgrad (r.znA alpha xn) (r.c.rho • r.unA alpha xn)) ∧
+    rowsW xs rows (fun r => r.znA alpha xn) (fun r => r.unA alpha xn)
+        + alpha * (2 - alpha) * rowsQ rows xn + 2 * alpha * (m * ‖xn - xs‖ ^ 2)
+      ≤ rowsW xs rows (·.z) (·.u) :=
+  ⟨admm_relax_step_eq alpha rows f solveX x zOld,
+   fun r hr => row_feasibleA alpha _ r (hok r hr).rho (hok r hr).prox,
+   admm_relax_descent alpha ha rows solveX F m hsm hsolve xs hok hkx x⟩
+
+/-- … along whole trajectories from EVERY start `s` (any `x`, any lists `z`, `u` of the right length — bundled as
+    rows, `exists_rows`): the model's iterates are the row iterates; from the first iterate on `W` is non-increasing
+    and the decreases are summable (`Σ_j D_j + W_{k+1} ≤ W_1`, `0 ≤ α ≤ 2`). -/
+theorem C03_admm_relax_traj {alpha m : ℝ} {cons : List (Con X Z)} {uss : List Z} {solveX : List Z → List Z → X → X}
+    {F : Fn X} {xs : X} (H : RelaxHyp alpha m cons uss solveX F xs) (f : Option (X → ℝ)) (s : RS X Z)
+    (hb : RS.Base xs cons uss s) (k : Nat) :
+    iter (admmSpecStep (admmOfCons f alpha solveX cons)) k s.state = (iter (RS.next alpha solveX) k s).state ∧
+    (iter (RS.next alpha solveX) (k + 2) s).W xs ≤ (iter (RS.next alpha solveX) (k + 1) s).W xs ∧
+    (∑ j ∈ Finset.range k, (iter (RS.next alpha solveX) (j + 1) s).D alpha m xs solveX)
+        + (iter (RS.next alpha solveX) (k + 1) s).W xs ≤ (iter (RS.next alpha solveX) 1 s).W xs :=
+  ⟨(RS.iter_eq alpha f solveX cons k s hb.hc).1,
+   RS.W_mono H (RS.next_ok alpha solveX hb) k,
+   RS.sum_descent H (RS.next_ok alpha solveX hb) k⟩
+
+/-- every state with lists of the length of the constraint list is given by rows -/
+theorem C03_admm_state_rows (cons : List (Con X Z)) (uss z u : List Z) (h1 : uss.length = cons.length)
+    (h2 : z.length = cons.length) (h3 : u.length = cons.length) :
+    ∃ rows : List (Row X Z), rows.map (·.c) = cons ∧ rows.map (·.us) = uss ∧ rows.map (·.z) = z ∧ rows.map (·.u) = u :=
+  exists_rows cons uss z u h1 h2 h3
+
+/-- `0 < α < 2`: the residual reported by `norm_primal_residual()` tends to `0` along every trajectory, and so does
+    `Σ ρ_i ‖z_i^{k+1} − z_i^k‖²` (which bounds the dual residual `‖Σ ρ_i C_iᵀ(z_i^{k+1} − z_i^k)‖` for bounded `C_i`) -/
+theorem C03_admm_residuals_tendsto {alpha m : ℝ} {cons : List (Con X Z)} {uss : List Z}
+    {solveX : List Z → List Z → X → X} {F : Fn X} {xs : X} (H : RelaxHyp alpha m cons uss solveX F xs)
+    (ha : 0 < alpha) (ha2 : alpha < 2) (f : Option (X → ℝ)) (s : RS X Z) (hb : RS.Base xs cons uss s) :
+    Filter.Tendsto (fun k => admmNormPrimalImpl (admmOfCons f alpha solveX cons)
+        (iter (admmSpecStep (admmOfCons f alpha solveX cons)) (k + 2) s.state) none) Filter.atTop (nhds 0) ∧
+    Filter.Tendsto (fun k => (iter (RS.next alpha solveX) (k + 1) s).dzSq alpha solveX) Filter.atTop (nhds 0) := by
+  have hok := RS.next_ok alpha solveX hb
+  constructor
+  · have h1 := RS.primalSq_tendsto H ha ha2 hok
+    have h2 := (Real.continuous_sqrt.tendsto 0).comp h1
+    rw [Real.sqrt_zero] at h2
+    refine h2.congr (fun k => ?_)
+    simp only [Function.comp]
+    have e := RS.iter_eq alpha f solveX cons (k + 2) s hb.hc
+    rw [e.1]
+    have := RS.normPrimal_eq f alpha solveX (iter (RS.next alpha solveX) (k + 2) s)
+    rw [e.2] at this
+    rw [this]
+    rfl
+  · exact RS.dzSq_tendsto H ha ha2 hok
+
+/-- strongly convex `f` (`m > 0`), `0 < α ≤ 2`: from EVERY start the point returned by `minimizer()` converges to the
+    minimiser `x*`, which is the only point satisfying the hypotheses -/
+theorem C03_admm_converges {alpha m : ℝ} {cons : List (Con X Z)} {uss : List Z} {solveX : List Z → List Z → X → X}
+    {F : Fn X} {xs : X} (H : RelaxHyp alpha m cons uss solveX F xs) (ha : 0 < alpha) (hm : 0 < m)
+    (f : Option (X → ℝ)) (s : RS X Z) (hb : RS.Base xs cons uss s) :
+    Filter.Tendsto (fun k => admmMinimizer (iter (admmSpecStep (admmOfCons f alpha solveX cons)) k s.state))
+      Filter.atTop (nhds xs) := by
+  have hok := RS.next_ok alpha solveX hb
+  have h1 := RS.x_tendsto H ha hm hok
+  rw [← Filter.tendsto_add_atTop_iff_nat 1]
+  refine h1.congr (fun k => ?_)
+  rw [(RS.iter_eq alpha f solveX cons (k + 1) s hb.hc).1]
+  rfl
+
+/-- the un-relaxed Lyapunov function `V` of `C03_admm_lyapunov` from EVERY start: after the first iteration the
+    state is dual feasible, so `V_{k+1} ≤ V_1` for all `k` -/
+theorem C03_admm_lyapunov_anystart (cons : List (Con X Z)) (uss : List Z) (f : Option (X → ℝ))
+    (solveX : List Z → List Z → X → X) (F : Fn X)
+    (hsolve : ∀ z u x0, F.Subgrad (solveX z u x0) (xGrad cons z u (solveX z u x0)))
+    (xs : X) (hkx : F.Subgrad xs (xGrad cons (cons.map (fun c => c.C xs)) uss xs)) (k : Nat)
+    (s : RS X Z) (hb : RS.Base xs cons uss s) :
+    ∃ (rows' : List (Row X Z)) (x' : X) (zOld' : List Z),
+      iter (admmSpecStep (admmOfCons f 1 solveX cons)) (k + 1) s.state
+        = { x := x', z := rows'.map (·.z), zOld := zOld', u := rows'.map (·.u) } ∧
+      rows'.map (·.c) = cons ∧ rows'.map (·.us) = uss ∧ (∀ r ∈ rows', RowOK xs r) ∧
+      rowsV xs rows' (·.z) (·.u) ≤ rowsV xs (s.next 1 solveX).rows (·.z) (·.u) := by
+  have hok := RS.next_ok 1 solveX hb
+  have h1 := RS.step_eq 1 f solveX s
+  rw [hb.hc] at h1
+  obtain ⟨rows', x', zOld', e, hc, hu, hr, hV⟩ :=
+    admm_lyapunov_rows_traj cons uss f solveX F hsolve xs hkx k (s.next 1 solveX).rows (s.next 1 solveX).x
+      (s.next 1 solveX).zOld hok.hc hok.hu (fun r hr => (hok.hb r hr).ok (hok.hpre r hr))
+  refine ⟨rows', x', zOld', ?_, hc, hu, hr, hV⟩
+  show iter _ k (admmSpecStep _ s.state) = _
+  rw [h1]
+  exact e
+
+/-- PDHG (Chambolle–Pock form implemented by scico), linear `C`, `alpha = 1`: one documented iteration from ANY
+    state is Fejér monotone w.r.t. every saddle point in the metric `M(a,b) = ‖a‖²/τ − 2⟪Ca,b⟫ + ‖b‖²/σ`, and `M`
+    dominates `(1−θ)(‖a‖²/τ + ‖b‖²/σ)` when `τσ‖C‖² ≤ θ²` -/
+theorem C03_pdhg_fejer (p : PDHGParams ℝ X Z) (F : Fn X) (xs : X) (zs : Z) (H : PDHGHyp p F xs zs)
+    (s : PDHGState X Z) :
+    pdM p.C p.tau p.sigma ((pdhgSpecStep p s).x - xs) ((pdhgSpecStep p s).z - zs)
+        + pdM p.C p.tau p.sigma (s.x - (pdhgSpecStep p s).x) (s.z - (pdhgSpecStep p s).z)
+      ≤ pdM p.C p.tau p.sigma (s.x - xs) (s.z - zs) ∧
+    (∀ (Lc theta : ℝ), PDHGRange p Lc theta → ∀ a b,
+      (1 - theta) * (‖a‖ ^ 2 / p.tau + ‖b‖ ^ 2 / p.sigma) ≤ pdM p.C p.tau p.sigma a b) :=
+  ⟨(pdhg_fejer_step p F xs zs H s).2.2,
+   fun _ _ R a b => pdM_lower p.C H.tau H.sigma R.L0 R.th0 R.bd R.ts a b⟩
+
+/-- the dual hypothesis of `PDHGHyp` from the proximal-map contracts: on the conjugate (`Cx* ∈ ∂g*(z*)`), or on `g`
+    itself with `conj_prox` computed by the Moreau decomposition as the code does (`z* ∈ ∂g(Cx*)`) -/
+theorem C03_pdhg_dual_contract (p : PDHGParams ℝ X Z) (xs : X) (zs : Z) :
+    (∀ Gc : Fn Z, IsProx Gc p.proxgConj → Gc.Subgrad zs (p.C xs) →
+      ∀ lam, 0 < lam → ∀ v, 0 ≤ inner ℝ (p.proxgConj lam v - zs) ((1 / lam) • (v - p.proxgConj lam v) - p.C xs)) ∧
+    (∀ (G : Fn Z) (proxg : ℝ → Z → Z), IsProx G proxg →
+      (∀ lam v, p.proxgConj lam v = v - lam • proxg (1 / lam) ((1 / lam) • v)) → G.Subgrad (p.C xs) zs →
+      ∀ lam, 0 < lam → ∀ v, 0 ≤ inner ℝ (p.proxgConj lam v - zs) ((1 / lam) • (v - p.proxgConj lam v) - p.C xs)) :=
+  ⟨fun Gc hg h2 => pdhg_dual_of_conj p Gc hg xs zs h2,
+   fun G proxg hg hconj h2 => pdhg_dual_of_moreau p G proxg hg hconj xs zs h2⟩
+
+/-- … along whole trajectories from every start, for the documented range `τσ‖C‖² < 1`: the `M`-distance to every
+    saddle point is non-increasing, the Euclidean distances stay bounded by it, and the residuals reported by
+    `norm_primal_residual()` / `norm_dual_residual()` tend to `0` -/
+theorem C03_pdhg_traj (p : PDHGParams ℝ X Z) (F : Fn X) (xs : X) (zs : Z) (H : PDHGHyp p F xs zs)
+    {Lc theta : ℝ} (R : PDHGRange p Lc theta) (hnx : p.normX = fun v => ‖v‖) (hnz : p.normZ = fun v => ‖v‖)
+    (s : PDHGState X Z) :
+    (∀ k, pdM p.C p.tau p.sigma ((iter (pdhgSpecStep p) (k + 1) s).x - xs) ((iter (pdhgSpecStep p) (k + 1) s).z - zs)
+        ≤ pdM p.C p.tau p.sigma ((iter (pdhgSpecStep p) k s).x - xs) ((iter (pdhgSpecStep p) k s).z - zs)) ∧
+    (∀ k, (1 - theta) * (‖(iter (pdhgSpecStep p) k s).x - xs‖ ^ 2 / p.tau + ‖(iter (pdhgSpecStep p) k s).z - zs‖ ^ 2 / p.sigma)
+        ≤ pdM p.C p.tau p.sigma (s.x - xs) (s.z - zs)) ∧
+    Filter.Tendsto (fun k => pdhgNormPrimalImpl p (iter (pdhgSpecStep p) (k + 1) s)) Filter.atTop (nhds 0) ∧
+    Filter.Tendsto (fun k => pdhgNormDualImpl p (iter (pdhgSpecStep p) (k + 1) s)) Filter.atTop (nhds 0) :=
+  ⟨fun k => (pdhg_fejer_traj p F xs zs H R s k).1, fun k => (pdhg_fejer_traj p F xs zs H R s k).2,
+   (pdhg_residuals_tendsto p F xs zs H R hnx hnz s).1, (pdhg_residuals_tendsto p F xs zs H R hnx hnz s).2⟩
+
+/-- proximal ADMM (general `B`, `c`) under the documented constraints `μ ≥ ‖A‖²`, `ν ≥ ‖B‖²`: every state produced by
+    `step()` satisfies the invariant `PADMMInv` (first conjunct: from ANY state), and from such a state
+    `Ψ⁺ + ‖x⁺−x‖²_P + ρν‖z⁺−z‖² + ρ‖u⁺−u‖² ≤ Ψ` for
+    `Ψ = ρ‖u−u*‖² + ‖x−x*‖²_P + ρν‖z−z*‖² + ‖z−z_old‖²_Q`, `P = ρ(μ − AᵀA)`, `Q = ρ(ν − BᵀB)`; `Ψ, ‖·‖_P, ‖·‖_Q ≥ 0` -/
+theorem C03_padmm_lyapunov (p : PADMMParams ℝ X Z U) (F : Fn X) (G : Fn Z) (xs : X) (zs : Z) (us : U)
+    (H : PADMMHyp p F G xs zs us) (s : PADMMState X Z U) :
+    PADMMInv p G (padmmSpecStep p s) ∧
+    (PADMMInv p G s →
+      padmmPsi p xs zs us (padmmSpecStep p s) + padmmDiss p s (padmmSpecStep p s) ≤ padmmPsi p xs zs us s) ∧
+    0 ≤ padmmPsi p xs zs us s ∧ 0 ≤ padmmDiss p s (padmmSpecStep p s) :=
+  ⟨padmm_inv_step p G H.rho H.nu H.proxg s, padmm_lyapunov_step p F G xs zs us H s,
+   padmmPsi_nonneg p F G xs zs us H s, padmmDiss_nonneg p F G xs zs us H _ _⟩
+
+/-- … along whole trajectories from every start: `Ψ_{k+2} ≤ Ψ_{k+1}`, and the residuals reported by
+    `norm_primal_residual()` and (fast form) `norm_dual_residual()` tend to `0` -/
+theorem C03_padmm_traj (p : PADMMParams ℝ X Z U) (F : Fn X) (G : Fn Z) (xs : X) (zs : Z) (us : U)
+    (H : PADMMHyp p F G xs zs us) (hnu : p.normU = fun v => ‖v‖) (hnz : p.normZ = fun v => ‖v‖)
+    (hfast : p.fastDual = true) (s : PADMMState X Z U) :
+    (∀ k, padmmPsi p xs zs us (iter (padmmSpecStep p) (k + 2) s) ≤ padmmPsi p xs zs us (iter (padmmSpecStep p) (k + 1) s)) ∧
+    (∃ r : ℕ → ℝ, (∀ k, padmmNormPrimalImpl p (iter (padmmSpecStep p) (k + 2) s) none none = .ok (r k)) ∧
+      Filter.Tendsto r Filter.atTop (nhds 0)) ∧
+    Filter.Tendsto (fun k => padmmNormDualImpl p (iter (padmmSpecStep p) (k + 2) s)) Filter.atTop (nhds 0) :=
+  ⟨fun k => padmm_lyapunov_mono p F G xs zs us H (padmmSpecStep p s) (padmm_inv_step p G H.rho H.nu H.proxg s) k,
+   (padmm_residuals_tendsto p F G xs zs us H hnu hnz hfast s).1,
+   (padmm_residuals_tendsto p F G xs zs us H hnu hnz hfast s).2⟩
+
+/-- linearized ADMM under the documented constraint `μ‖C‖² ≤ ν`: from a dual-feasible state (`u/ν ∈ ∂g(z)`, true
+    after every step — first conjunct, from ANY state)
+    `V = (1/ν)(‖u−u*‖² + ‖z−Cx*‖²) + (1/μ)‖x−x*‖² − (1/ν)‖C(x−x*)‖²` decreases by at least
+    `(1/μ)‖x⁺−x‖² − (1/ν)‖C(x⁺−x)‖² + (1/ν)(‖z⁺−z‖² + ‖u⁺−u‖²) ≥ 0` -/
+theorem C03_ladmm_lyapunov (p : LADMMParams ℝ X Z) (F : Fn X) (G : Fn Z) (xs : X) (us : Z)
+    (H : LADMMHyp p F G xs us) (s : LADMMState X Z) :
+    G.Subgrad (ladmmSpecStep p s).z ((1 / p.nu) • (ladmmSpecStep p s).u) ∧
+    (G.Subgrad s.z ((1 / p.nu) • s.u) →
+      ladmmV p xs us (ladmmSpecStep p s) + ladmmDiss p s (ladmmSpecStep p s) ≤ ladmmV p xs us s) ∧
+    0 ≤ ladmmV p xs us s ∧ 0 ≤ ladmmDiss p s (ladmmSpecStep p s) :=
+  ⟨ladmm_feasible_step p G H.nu H.proxg s, ladmm_lyapunov_step p F G xs us H s,
+   ladmmV_nonneg p F G xs us H s, ladmmDiss_nonneg p F G xs us H _ _⟩
+
+/-- … along whole trajectories from every start: `V_{k+2} ≤ V_{k+1}`, `norm_primal_residual() → 0`, `‖z − z_old‖ → 0` -/
+theorem C03_ladmm_traj (p : LADMMParams ℝ X Z) (F : Fn X) (G : Fn Z) (xs : X) (us : Z)
+    (H : LADMMHyp p F G xs us) (hnz : p.normZ = fun v => ‖v‖) (s : LADMMState X Z) :
+    (∀ k, ladmmV p xs us (iter (ladmmSpecStep p) (k + 2) s) ≤ ladmmV p xs us (iter (ladmmSpecStep p) (k + 1) s)) ∧
+    Filter.Tendsto (fun k => ladmmNormPrimalImpl p (iter (ladmmSpecStep p) (k + 2) s) none) Filter.atTop (nhds 0) ∧
+    Filter.Tendsto (fun k => ‖(iter (ladmmSpecStep p) (k + 2) s).z - (iter (ladmmSpecStep p) (k + 2) s).zOld‖)
+      Filter.atTop (nhds 0) :=
+  ⟨fun k => ladmm_lyapunov_mono p F G xs us H (ladmmSpecStep p s) (ladmm_feasible_step p G H.nu H.proxg s) k,
+   (ladmm_residuals_tendsto p F G xs us H hnz s).1, (ladmm_residuals_tendsto p F G xs us H hnz s).2⟩
+
+/-- accelerated PGM = FISTA (Beck–Teboulle 2009, Thm 4.4) for the documented iteration with the base step-size object,
+    `L ≥` Lipschitz constant, convex `f`: from the constructor state (`v = x_0`, `t = 1`), for every `k` and every
+    comparison point `x̄ ∈ dom g` (in particular a minimiser): `F(x_{k+1}) − F(x̄) ≤ 2L‖x_0 − x̄‖²/(k+2)²` -/
+theorem C03_fista_rate (p : PGMParams Unit ℝ X) {G : Fn X} {L : ℝ} (h : FISTAHyp p G L) (xb : X) (hxb : xb ∈ G.dom)
+    (s : APGMState Unit ℝ X) (hsL : s.L = L) (ht : s.t = 1) (hv : s.v = s.x) (k : Nat) :
+    (p.f (iter (apgmSpecStep p) (k + 1) s).x + G.val (iter (apgmSpecStep p) (k + 1) s).x) - (p.f xb + G.val xb)
+      ≤ 2 * L * ‖s.x - xb‖ ^ 2 / ((k : ℝ) + 2) ^ 2 :=
+  fista_rate p h xb hxb s hsL ht hv k
+
+/-- PGM: the objective is non-increasing along the whole trajectory (base step-size object, `L ≥` Lipschitz constant) -/
+theorem C03_pgm_objective_traj (p : PGMParams Unit ℝ X) {G : Fn X} {L : ℝ} (h : PGMHyp p G L)
+    (hd : DescentLemma p.f p.gradf L) (s : PGMState Unit ℝ X) (hsL : s.L = L) (k : Nat) :
+    p.f (iter (pgmSpecStep p) (k + 2) s).x + G.val (iter (pgmSpecStep p) (k + 2) s).x
+      ≤ p.f (iter (pgmSpecStep p) (k + 1) s).x + G.val (iter (pgmSpecStep p) (k + 1) s).x := by
+  have hL := pgm_iter_L p h (k + 1) s hsL
+  have hx := (pgmSpec_x p h (iter (pgmSpecStep p) (k + 1) s) hL).1
+  have hdom : (iter (pgmSpecStep p) (k + 1) s).x ∈ G.dom := by
+    rw [iter_succ', (pgmSpec_x p h (iter (pgmSpecStep p) k s) (pgm_iter_L p h k s hsL)).1]
+    exact (h.prox L⁻¹ (inv_pos.2 h.Lpos) _).1
+  have := pgStep_objective h.prox h.Lpos hd hdom
+  rw [← hx, ← iter_succ' (pgmSpecStep p) (k + 1) s] at this
+  have h0 : 0 ≤ L / 2 * ‖(iter (pgmSpecStep p) (k + 1 + 1) s).x - (iter (pgmSpecStep p) (k + 1) s).x‖ ^ 2 := by
+    have := h.Lpos; positivity
+  linarith
+
+/-! ### non-vacuity of the round-2 theorems: `min ½‖x − y0‖² + Σ 0(x)`, in every inner-product space -/
+
+-- the x-update contract `XSolver` of `C03_admm_fixed` (stationarity + uniqueness) holds for the exact solver
+example (y0 : X) : XSolver (halfSq y0) [idCon 1, idCon 2] (exSolveX y0 [idCon 1, idCon 2]) :=
+  exSolveX_xsolver y0 _ (by intro c hc; simp at hc; rcases hc with rfl | rfl <;> exact ⟨rfl, rfl⟩)
+    (by intro c hc; simp at hc; rcases hc with rfl | rfl <;> norm_num [idCon])
+
+-- relaxed ADMM, two constraints, `α = 3/2`, strongly convex `f` (`m = 1`): all hypotheses of
+-- `C03_admm_relax_traj / _residuals_tendsto / _converges` hold, for every start `(x, z_1, z_2, u_1, u_2)`
+example (y0 x z1 z2 u1 u2 : X) :
+    Filter.Tendsto (fun k => admmMinimizer (iter (admmSpecStep (admmOfCons none (3 / 2) (exSolveX y0 ([1, 2].map idCon))
+        ([1, 2].map idCon))) k
+        (RS.state ⟨[⟨idCon 1, z1, u1, 0⟩, ⟨idCon 2, z2, u2, 0⟩], x, []⟩))) Filter.atTop (nhds y0) := by
+  have H := ex_relaxHyp y0 [1, 2] (by intro r hr; simp at hr; rcases hr with rfl | rfl <;> norm_num) (3 / 2)
+    (by norm_num) (by norm_num)
+  refine C03_admm_converges H (by norm_num) (by norm_num) none _ ⟨rfl, rfl, ?_⟩
+  intro r hr
+  simp at hr
+  rcases hr with rfl | rfl
+  · exact idCon_base 1 (by norm_num) y0 z1 u1
+  · exact idCon_base 2 (by norm_num) y0 z2 u2
+
+example (y0 : X) : PDHGHyp (exPDHG y0) (halfSq y0) y0 0 ∧ PDHGRange (exPDHG y0) 1 (1 / 2) :=
+  ⟨exPDHG_hyp y0, exPDHG_range y0⟩
+example (y0 : X) : PADMMHyp (exPADMM y0) (halfSq y0) zeroFn y0 y0 0 := exPADMM_hyp y0
+example (y0 : X) : LADMMHyp (exLADMM y0) (halfSq y0) zeroFn y0 0 := exLADMM_hyp y0
+example (y0 : X) : FISTAHyp (exPGM y0) zeroFn 1 := exPGM_fista y0
+-- the FISTA bound on the instance: F(x_{k+1}) − F(y0) ≤ 2‖x_0 − y0‖²/(k+2)²
+example (y0 x0 : X) (k : Nat) :
+    1 / 2 * ‖(iter (apgmSpecStep (exPGM y0)) (k + 1) (apgmInit 1 0 x0 ())).x - y0‖ ^ 2
+      ≤ 2 * 1 * ‖x0 - y0‖ ^ 2 / ((k : ℝ) + 2) ^ 2 := by
+  have := C03_fista_rate (exPGM y0) (exPGM_fista y0) y0 trivial (apgmInit 1 0 x0 ()) rfl rfl rfl k
+  simpa [exPGM, zeroFn, Fn.ofReal, apgmInit] using this
 
 end Scico.Props.C03
